@@ -1184,6 +1184,13 @@ class Terms(object):
                     b_[1] == ("global", "slice") and len(b_[2]) == 2 and \
                     not b_[3]:
                 return b_[2][0 if e.attr == "start" else 1]
+            # struct.Struct(F).size is struct.calcsize(F)
+            pb_ = plain(b_)
+            if e.attr == "size" and pb_[0] == "call" and pb_[1] == (
+                    "attr", ("global", "struct"), "Struct") and \
+                    len(pb_[2]) == 1 and not pb_[3]:
+                return ("call", ("attr", ("global", "struct"), "calcsize"),
+                        (pb_[2][0],), ())
             return ("attr", b_, e.attr)
         if isinstance(e, ast.NamedExpr):
             return T(e.value, node, env)
